@@ -979,6 +979,12 @@ class Interp(object):
                 if not isinstance(k, (Top, Sym, Obj, list, dict)) and k in base:
                     return base.pop(k)
                 return Top('item')
+        if isinstance(base, (str, bytes)) and name in ('encode', 'decode') and not _has_abstract(list(args)) \
+                and set(kwargs) <= {'encoding', 'errors'} and not _has_abstract(kwargs):
+            try:
+                return getattr(base, name)(*args, **kwargs)
+            except (UnicodeError, LookupError):
+                raise Raise('UnicodeError', node, self.where(node, frame))
         if isinstance(base, (str, bytes)) and not _has_abstract(list(args)) and not kwargs:
             if name in ('strip', 'lstrip', 'rstrip', 'startswith', 'endswith', 'find', 'rfind', 'upper', 'lower',
                         'isdigit', 'count', 'split', 'rsplit', 'join', 'encode', 'decode', 'splitlines', 'index'):
